@@ -99,6 +99,7 @@ type Exec struct {
 	nNoPanic int
 	closureVar map[types.Object]*FuncInfo
 	stmtsSeen, stmtsLowered, stmtsDropped int
+	loweredSet map[token.Pos]bool
 	calleesUsed map[string]bool
 	assumptions map[string]bool
 	guard []*Term // guards active for obligations raised during short-circuit evaluation
@@ -460,6 +461,9 @@ func (x *Exec) merge(states []*State) []*State {
 		p = n
 	}
 	m := &State{vars: map[types.Object]*Term{}, st: map[string]*Term{}, pseudo: map[string]*Term{}}
+	for k, v := range states[0].pseudo {
+		m.pseudo[k] = v
+	}
 	m.pc = append([]*Term(nil), states[0].pc[:p]...)
 	guards := make([]*Term, len(states))
 	for i, s := range states {
@@ -547,18 +551,22 @@ func (x *Exec) merge(states []*State) []*State {
 }
 
 func (x *Exec) execStmt(s *State, stmt ast.Stmt, entry *State) outcomes {
+	if x.loweredSet == nil {
+		x.loweredSet = map[token.Pos]bool{}
+	}
+	if _, isBlock := stmt.(*ast.BlockStmt); !isBlock && !x.loweredSet[stmt.Pos()] {
+		x.loweredSet[stmt.Pos()] = true
+		defer func() { x.stmtsLowered = len(x.loweredSet) }()
+	}
 	switch st := stmt.(type) {
 	case *ast.EmptyStmt:
-		x.stmtsLowered++
 		return outcomes{normal: []*State{s}}
 	case *ast.BlockStmt:
 		return x.execBlock(s, st.List, entry)
 	case *ast.ExprStmt:
-		x.stmtsLowered++
 		x.evalMulti(s, st.X)
 		return outcomes{normal: []*State{s}}
 	case *ast.DeclStmt:
-		x.stmtsLowered++
 		gd := st.Decl.(*ast.GenDecl)
 		if gd.Tok == token.VAR {
 			for _, sp := range gd.Specs {
@@ -581,11 +589,9 @@ func (x *Exec) execStmt(s *State, stmt ast.Stmt, entry *State) outcomes {
 		}
 		return outcomes{normal: []*State{s}}
 	case *ast.AssignStmt:
-		x.stmtsLowered++
 		x.execAssign(s, st)
 		return outcomes{normal: []*State{s}}
 	case *ast.IncDecStmt:
-		x.stmtsLowered++
 		cur := x.eval(s, st.X)
 		var nv *Term
 		if st.Tok == token.INC {
@@ -596,7 +602,6 @@ func (x *Exec) execStmt(s *State, stmt ast.Stmt, entry *State) outcomes {
 		x.assignTo(s, st.X, nv)
 		return outcomes{normal: []*State{s}}
 	case *ast.IfStmt:
-		x.stmtsLowered++
 		if st.Init != nil {
 			o := x.execStmt(s, st.Init, entry)
 			s = o.normal[0]
@@ -616,7 +621,6 @@ func (x *Exec) execStmt(s *State, stmt ast.Stmt, entry *State) outcomes {
 		res.normal = x.merge(res.normal)
 		return res
 	case *ast.ReturnStmt:
-		x.stmtsLowered++
 		var vals []*Term
 		if len(st.Results) > 0 {
 			vals = x.evalRHS(s, st.Results, len(x.resultVars))
@@ -624,7 +628,6 @@ func (x *Exec) execStmt(s *State, stmt ast.Stmt, entry *State) outcomes {
 		x.doReturn(s, vals, entry, st.Pos())
 		return outcomes{}
 	case *ast.BranchStmt:
-		x.stmtsLowered++
 		if st.Label != nil {
 			x.fail(st, "labelled branch")
 		}
@@ -636,7 +639,6 @@ func (x *Exec) execStmt(s *State, stmt ast.Stmt, entry *State) outcomes {
 		}
 		x.fail(st, "unsupported branch %s", st.Tok)
 	case *ast.DeferStmt:
-		x.stmtsLowered++
 		// only plain calls whose arguments are evaluated now are supported: we require no arguments or
 		// receiver-only calls (Unlock, RUnlock, Close).
 		if len(st.Call.Args) != 0 {
@@ -645,16 +647,12 @@ func (x *Exec) execStmt(s *State, stmt ast.Stmt, entry *State) outcomes {
 		x.defers = append(x.defers, deferred{st.Call})
 		return outcomes{normal: []*State{s}}
 	case *ast.ForStmt:
-		x.stmtsLowered++
 		return x.execFor(s, st, entry)
 	case *ast.RangeStmt:
-		x.stmtsLowered++
 		return x.execRange(s, st, entry)
 	case *ast.SwitchStmt:
-		x.stmtsLowered++
 		return x.execSwitch(s, st, entry)
 	case *ast.TypeSwitchStmt:
-		x.stmtsLowered++
 		return x.execTypeSwitch(s, st, entry)
 	case *ast.GoStmt:
 		x.fail(st, "goroutine")
@@ -1137,6 +1135,12 @@ func (x *Exec) obligeSplit(s *State, kind, label string, goal *Term, text, pos s
 		}
 		return
 	}
+	if goal.Op == "=>" && goal.Args[1].Op == "and" {
+		for i, a := range goal.Args[1].Args {
+			x.obligeSplit(s, kind, fmt.Sprintf("%s.%d", label, i+1), Implies(goal.Args[0], a), text, pos)
+		}
+		return
+	}
 	x.oblige(s, kind, label, goal, text, pos)
 }
 
@@ -1565,6 +1569,7 @@ func (x *Exec) runLoop(s *State, entry *State, node ast.Node, bodyNode ast.Node,
 	for iter := 0; iter < 6; iter++ {
 		x.suppress = true
 		h := x.loopHead(s, entry, lc, locals, modified, pseudoInit)
+		h0 := h.snapshotSt()
 		c := cond(h)
 		b := h.clone()
 		b.assume(c)
@@ -1574,13 +1579,14 @@ func (x *Exec) runLoop(s *State, entry *State, node ast.Node, bodyNode ast.Node,
 		o := x.execBlock(b, body, entry)
 		ends := append(o.normal, o.cont...)
 		ends = append(ends, o.brk...)
+		ends = append(ends, h)
 		grew := false
 		for _, e := range ends {
 			if post != nil {
 				// post does not touch state variables in the supported forms
 			}
 			for name, t := range e.st {
-				ht, ok := h.st[name]
+				ht, ok := h0[name]
 				if !ok {
 					ht = x.initSt[name]
 				}
